@@ -64,14 +64,14 @@ def step : List String → String
     match size.toNat?, hexToBytes stream, parseScript script with
     | some n, some st, some sc =>
       let model := showRecv (receive (w == "1") n st sc)
-      let raw := PyIR.runRecv ⟨w == "1", false, true, Pyro.Gen.C17.isSub⟩ Pyro.Gen.C17.receiveData n st sc
+      let raw := PyIR.runRecv { useWaitall := w == "1", peercert := false, blocking := true, isSub := Pyro.Gen.C17.isSub } Pyro.Gen.C17.receiveData n st sc
       withIR model ((PyIR.toRecv raw).map showRecv) raw
     | _, _, _ => "bad-op"
   | ["send", b, data, script] =>
     match hexToBytes data, parseScript script with
     | some d, some sc =>
       let model := showSend (send (b == "1") d sc)
-      let raw := PyIR.runSend ⟨false, false, b == "1", Pyro.Gen.C17.isSub⟩ Pyro.Gen.C17.sendData d sc
+      let raw := PyIR.runSend { useWaitall := false, peercert := false, blocking := b == "1", isSub := Pyro.Gen.C17.isSub } Pyro.Gen.C17.sendData d sc
       withIR model ((PyIR.toSend raw).map showSend) raw
     | _, _ => "bad-op"
   | _ => "bad-op"
